@@ -110,7 +110,17 @@ type pointSpec struct {
 	Meas   string
 	Tags   [][2]string
 	Fields []fieldSpec
-	Time   int64
+	Time   int64 // nanoseconds; zeroTimeNanos stands for the zero time.Time (a point without a timestamp)
+}
+
+// UnixNano of the zero time.Time
+var zeroTimeNanos = time.Time{}.UnixNano()
+
+func (ps pointSpec) when() time.Time {
+	if ps.Time == zeroTimeNanos {
+		return time.Time{}
+	}
+	return time.Unix(0, ps.Time)
 }
 
 func (ps pointSpec) json() map[string]any {
@@ -120,9 +130,20 @@ func (ps pointSpec) json() map[string]any {
 	}
 	fs := []any{}
 	for _, f := range ps.Fields {
+		if f.T == "bytes" {
+			// a field of a Go type the language does not have: the point keeps it, scripts cannot see it
+			// (no key record) - for the model the key does not exist
+			continue
+		}
 		fs = append(fs, []string{hx(f.K), renderField(f)})
 	}
-	return map[string]any{"m": hx(ps.Meas), "tags": tags, "fields": fs, "time": ps.Time}
+	foreign := []any{}
+	for _, f := range ps.Fields {
+		if f.T == "bytes" {
+			foreign = append(foreign, []string{hx(f.K), hx(f.V)})
+		}
+	}
+	return map[string]any{"m": hx(ps.Meas), "tags": tags, "fields": fs, "time": ps.Time, "foreign": foreign}
 }
 
 func fieldVal(f fieldSpec) any {
@@ -139,6 +160,8 @@ func fieldVal(f fieldSpec) any {
 		var u uint64
 		fmt.Sscan(f.V, &u)
 		return bitsFloat(u)
+	case "bytes":
+		return []byte(f.V)
 	default:
 		return f.V
 	}
@@ -156,7 +179,7 @@ func (ps pointSpec) build() *input.Point {
 		fields[f.K] = fieldVal(f)
 	}
 	pt := input.GetPoint()
-	return input.InitPt(pt, ps.Meas, tags, fields, time.Unix(0, ps.Time))
+	return input.InitPt(pt, ps.Meas, tags, fields, ps.when())
 }
 
 func dumpPoint(pt *input.Point) map[string]any {
@@ -167,6 +190,9 @@ func dumpPoint(pt *input.Point) map[string]any {
 	sort.Slice(tags, func(i, j int) bool { return tags[i][0] < tags[j][0] })
 	fs := [][]string{}
 	for k, v := range pt.Fields {
+		if _, foreign := v.([]byte); foreign {
+			continue // an input field of a Go type the language does not have: invisible to the script, not judged
+		}
 		fs = append(fs, []string{hx(k), render(v)})
 	}
 	sort.Slice(fs, func(i, j int) bool { return fs[i][0] < fs[j][0] })
